@@ -14,11 +14,14 @@ import LMV.Driver.Util
     c18sseq <K> <L> <k> <M1 … Mk> <L symbols>
         one striped sequence, a fresh view after 0, 1, …, k calls of `calculate` with motifs of M1 … Mk rows
         -> the k+1 views, joined by " ; "
+    c18stale <observation> <K> <L> <M> <L symbols>
+        a view exported BEFORE calculate() with a motif of M rows and read after it showed
+        `same` | `differs` | `BufferError`  -> adm-ok | adm-bad …   (known finding: the stale view)
 -/
 namespace LMV.Driver.C18
 open LMV LMV.PyView LMV.Driver
 
-def ops : List String := ["c18idx", "c18buf", "c18sseq"]
+def ops : List String := ["c18idx", "c18buf", "c18sseq", "c18stale"]
 
 /-- alignment of `Row` on x86-64 (`repr(align(32))`) -/
 def align : Nat := 32
@@ -100,6 +103,14 @@ def handle (toks : List String) : String :=
         let s := acc.1.configure M
         (s, step s :: acc.2)) (PySeq.fresh cols R, [step (PySeq.fresh cols R)])
     " ; ".intercalate outs.reverse
+  | "c18stale" :: obs :: _k :: l :: m :: _ =>
+    -- a view exported before `calculate` with a motif of `m` rows, read after it; the observation is
+    -- on the case line and the model says whether a variant of the code admits it
+    let L := parseNat! l
+    let s := PySeq.fresh 32 ((L + 31) / 32)
+    if (staleAdmissible .asIs s (parseNat! m)).contains obs then "adm-ok"
+    else if (staleAdmissible .repaired s (parseNat! m)).contains obs then "adm-ok"
+    else s!"adm-bad {obs} not admitted"
   | _ => "bad-case"
 
 end LMV.Driver.C18
